@@ -114,6 +114,20 @@ let cmd_prior toks =
        | Val v -> go v rest) in
   String.concat " " singles ^ " | " ^ go 0.0 terms
 
+(* ---- C18: sens <scheme> <h> <t> <x list> J|Z k  simif  ->  J rows (flattened) or Z ; and final params ---- *)
+let cmd_sens toks =
+  let (sch, r) = pop toks in let (h, r) = pop_fl r in let (t, r) = pop_fl r in
+  let (x, r) = pop_flist r in let (what, r) = pop r in let (k, r) = pop_int r in
+  let (si, _) = pop_simif r in
+  let sch = match sch with "fourth_order_central_difference" -> FourthOrder | "central_difference" -> Central
+    | "backward_difference" -> Backward | "forward_difference" -> Forward | s -> raise (Parse s) in
+  if what = "J" then
+    let j = compute_J fl (fun x -> derivative fl si x t) x h sch in
+    String.concat " " (List.map hx (List.concat j))
+  else
+    let (z, p) = compute_Zj fl (fun p x -> derivative fl { si with si_params = p } x t) si.si_params x (nat_of_int k) h sch in
+    String.concat " " (List.map hx z) ^ " | " ^ String.concat " " (List.map hx p)
+
 let () =
   try
     while true do
@@ -126,6 +140,7 @@ let () =
           | "prop" -> cmd_prop toks
           | "c03" -> cmd_c03 toks
           | "prior" -> cmd_prior toks
+          | "sens" -> cmd_sens toks
           | "iface" -> cmd_iface toks
           | _ -> "ERR unknown command " ^ cmd)
           with e -> "ERR " ^ Printexc.to_string e in
